@@ -9,6 +9,7 @@ from ..astutil import inside
 from ..cfg import CFG, cond_strings
 from ..core import AnalysisError
 from ..defuse import DefUse, Terms, show
+from ..defuse import key as tkey
 
 EXPLANATION = (
     "Static analysis of utils.get_next_row / merge_sort / csv_row_iterator "
@@ -313,8 +314,8 @@ def _merge_sort(ctx, f):
               "one row iterator per input path",
               f"iterators are {show(it_def, 120)}", node=c)
     ok_hd = hd_def[0] == "comp" and hd_def[1] == "dict" and \
-        show(hd_def[3][0][1]).endswith(".items()") and \
-        "next(" in show(hd_def[2]) and not hd_def[3][0][2]
+        tkey(hd_def[3][0][1]).endswith(".items()") and \
+        "next(" in tkey(hd_def[2]) and not hd_def[3][0][2]
     ctx.check(ok_hd, "C14a-one-head-per-iterator", f,
               "every iterator contributes its first row as head",
               f"heads are {show(hd_def, 120)}", node=c)
@@ -356,7 +357,7 @@ def _row_iterator(ctx, f):
             du = DefUse(prog, f)
             T = Terms(du)
             yt = T.of(yf[0].value)
-            txt = show(yt, 200)
+            txt = tkey(yt, 200)
             full = (yt[0] == "mcall" and yt[2] in ("to_dict", "to_pylist")
                     and yt[1][0] == "elem")
             if yt[0] == "mcall" and yt[2] == "to_dict":
